@@ -88,7 +88,10 @@ DirectCases == Whole("directudp", {[U0 EXCEPT !.pl = p] : p \in PayLens \cup {0,
 (* Shadowsocks 2022 *)
 T0 == [saltlen |-> 32, ursp |-> 0, urspok |-> TRUE, eih |-> FALSE, user |-> "ok", seg |-> "whole", allowseg |-> FALSE,
        fallback |-> FALSE, salt |-> "fresh", auth |-> "ok", type |-> TypeCliStream, ts |-> 0, vk |-> "exact", vauth |-> "ok",
-       a |-> A4, padlen |-> 7, pl |-> 5, tail |-> 0]
+       a |-> A4, padlen |-> 7, pl |-> 5, tail |-> 0, icut |-> -1]
+\* inner cuts: a peer with the key seals a prefix of the header, at every field boundary and around it
+ICuts(ms, inner(_)) == UNION {{[mm EXCEPT !.icut = h] : h \in Cuts(inner(mm))} : mm \in ms}
+TInner == ICuts({[T0 EXCEPT !.a = a, !.padlen = p, !.pl = l, !.fallback = f] : a \in FewAddrs, p \in {0, 7}, l \in {0, 5}, f \in Bools}, SsVarWire)
 TBase == {[T0 EXCEPT !.a = a, !.saltlen = s, !.padlen = p, !.pl = l]
             : a \in Addrs, s \in {16, 32}, p \in PadLens, l \in {0, 5}}
 TCut  == {[T0 EXCEPT !.a = a, !.saltlen = s, !.eih = e, !.ursp = u, !.fallback = f, !.allowseg = g, !.tail = t]
@@ -105,7 +108,7 @@ TVar ==
     \cup {[T0 EXCEPT !.vk = k, !.vauth = v, !.a = a, !.fallback = f, !.tail = t]
             : k \in {"exact", "zero", "less", "more"}, v \in {"ok", "bad"}, a \in {A4, AD}, f \in BOOLEAN, t \in {0, 40}}
     \cup {[T0 EXCEPT !.a = a, !.padlen = p, !.pl = l] : a \in FewAddrs, p \in PadLens \cup {0, 65000}, l \in {0, 1}}
-TCases == AllCuts("ss22srv", TCut) \cup Whole("ss22srv", TBase \cup TVar)
+TCases == AllCuts("ss22srv", TCut) \cup Whole("ss22srv", TBase \cup TVar \cup TInner)
 
 C0 == [saltlen |-> 32, ursp |-> 0, urspok |-> TRUE, seg |-> "whole", allowseg |-> FALSE, auth |-> "ok", type |-> TypeSrvStream,
        ts |-> 0, rsalt |-> "ok", plen |-> 5, pauth |-> "ok", tail |-> 0]
@@ -123,7 +126,8 @@ K0 == [clen |-> 5, lauth |-> "ok", cauth |-> "ok", tail |-> 0]
 KCases == AllCuts("ss22chunk", {[K0 EXCEPT !.clen = c, !.tail = t] : c \in {1, 5, 65535}, t \in {0, 5}})
           \cup Whole("ss22chunk", {[K0 EXCEPT !.clen = c, !.lauth = l, !.cauth = a] : c \in {0, 1, 65535}, l \in {"ok", "bad"}, a \in {"ok", "bad"}})
 
-P0 == [eih |-> FALSE, user |-> "ok", pid |-> "new", auth |-> "ok", type |-> TypeCliPacket, ts |-> 0, padlen |-> 0, a |-> A4, pl |-> 32]
+P0 == [eih |-> FALSE, user |-> "ok", pid |-> "new", auth |-> "ok", type |-> TypeCliPacket, ts |-> 0, padlen |-> 0, a |-> A4, pl |-> 32, icut |-> -1]
+PInner == ICuts({[P0 EXCEPT !.a = a, !.padlen = p, !.pl = l, !.eih = e] : a \in FewAddrs, p \in {0, 1, 900}, l \in {0, 32}, e \in Bools}, SsUdpSrvInner)
 PBase == {[P0 EXCEPT !.a = a, !.padlen = p, !.pl = l, !.eih = e] : a \in Addrs, p \in PadLens, l \in PayLens, e \in BOOLEAN}
 PCut == {[P0 EXCEPT !.a = a, !.padlen = p, !.pl = l, !.eih = e, !.auth = au]
            : a \in FewAddrs, p \in (IF Rich THEN PadLens ELSE {1}), l \in (IF Rich THEN {0, 32} ELSE {32}), e \in BOOLEAN,
@@ -132,9 +136,11 @@ PVar ==
     {[P0 EXCEPT !.type = v] : v \in {TypeSrvPacket} \cup BadBytes} \cup {[P0 EXCEPT !.ts = t] : t \in TsOffs}
     \cup {[P0 EXCEPT !.pid = "replay", !.eih = e] : e \in BOOLEAN} \cup {[P0 EXCEPT !.eih = TRUE, !.user = "unk"]}
     \cup {[P0 EXCEPT !.padlen = p, !.a = a] : p \in {2000}, a \in FewAddrs}
-PCases == AllCuts("ss22udpsrv", PCut) \cup Whole("ss22udpsrv", PBase \cup PVar)
+PCases == AllCuts("ss22udpsrv", PCut) \cup Whole("ss22udpsrv", PBase \cup PVar \cup PInner)
 
-Q0 == [sess |-> "new", pid |-> "new", auth |-> "ok", type |-> TypeSrvPacket, ts |-> 0, csid |-> "ok", padlen |-> 0, a |-> A4, pl |-> 32]
+Q0 == [sess |-> "new", pid |-> "new", auth |-> "ok", type |-> TypeSrvPacket, ts |-> 0, csid |-> "ok", padlen |-> 0, a |-> A4, pl |-> 32, icut |-> -1]
+QInner == ICuts({[Q0 EXCEPT !.a = a, !.padlen = p, !.pl = l, !.sess = s] : a \in FewAddrs, p \in {0, 1, 900}, l \in {0, 32}, s \in {"new", "cur"}},
+                SsUdpCliInner)
 QBase == {[Q0 EXCEPT !.a = a, !.padlen = p, !.pl = l, !.sess = s] : a \in Addrs, p \in PadLens, l \in PayLens, s \in {"new", "cur", "old"}}
 QCut == {[Q0 EXCEPT !.a = a, !.padlen = p, !.pl = l, !.auth = au, !.sess = s]
            : a \in FewAddrs, p \in (IF Rich THEN PadLens ELSE {1}), l \in (IF Rich THEN {0, 32} ELSE {32}),
@@ -144,7 +150,7 @@ QVar ==
     \cup {[Q0 EXCEPT !.pid = "replay", !.sess = s] : s \in {"cur", "old"}} \cup {[Q0 EXCEPT !.sess = "third"]}
     \cup {[Q0 EXCEPT !.csid = "bad", !.sess = s] : s \in {"new", "cur"}}
     \cup {[Q0 EXCEPT !.padlen = p, !.a = a] : p \in {2000}, a \in FewAddrs}
-QCases == AllCuts("ss22udpcli", QCut) \cup Whole("ss22udpcli", QBase \cup QVar)
+QCases == AllCuts("ss22udpcli", QCut) \cup Whole("ss22udpcli", QBase \cup QVar \cup QInner)
 
 -----------------------------------------------------------------------------
 (* HTTP: text, truncation is a class *)
